@@ -73,9 +73,9 @@ def _edge_insertion(pt, v):
         return False
     end = pt["start"] + sum(l for op, l in core if op in (0, 2, 3, 7, 8))
     if core[-1][0] == 1 and end == v.pos + 1 and core[-1][1] == len(v.alt) - 1:
-        return True
+        return "trailing"
     if core[0][0] == 1 and pt["start"] == v.pos + 1 and core[0][1] == len(v.alt) - 1:
-        return True
+        return "leading"
     return False
 
 
@@ -220,6 +220,12 @@ def run_one(rng, counters):
                 elif v.kind == "ins" and truth == 1 and any(_edge_insertion(pt, v) for pt in parts):
                     # the alignment begins/ends with exactly the inserted bases: it carries the ALT allele completely
                     counters["pairs_edge_insertion"] = counters.get("pairs_edge_insertion", 0) + 1
+                    trailing = any(_edge_insertion(pt, v) == "trailing" for pt in parts)
+                    if r_ is None and use_ref and trailing and i not in crowded and len(parts) == 1:
+                        # anchor and all inserted bases are in the alignment (it ends right behind them): with a reference
+                        # the allele has to be found
+                        viol.append({"mech": "missing-allele:ins:edge", "msg": "fragment %s (alignments %r) ends with the anchor and all inserted bases of %r but no allele was recorded (with reference)" % (
+                            name, [(pt["start"], pt["cigar"]) for pt in parts], v.as_list())})
                     if r_ is not None and r_[0] == 0:
                         viol.append({"mech": "wrong-allele:ins:edge" + (":noref" if not use_ref else ""),
                                      "msg": "fragment %s (alignments %r) begins/ends with the inserted bases of %r but allele REF was recorded %r" % (name, [(pt["start"], pt["cigar"]) for pt in parts], v.as_list(), r_)})
